@@ -300,7 +300,7 @@ let run_e cap fields =
   let n_idle = List.length (List.filter (fun s -> idle now s) t.t_sess) in
   let recl = (cap - List.length t.t_sess) + n_idle in
   let probe = full_with_retries false in
-  Printf.sprintf "q=1 res=%s xl=%d xd=%s marker=%s rdv=00 recl=%d probe=%s | est=%d plain=%d total=%d"
+  Printf.sprintf "q=1 res=%s xl=%d xd=%s rx=0 marker=%s rdv=00 recl=%d probe=%s | est=%d plain=%d total=%d"
     (string_of_n res) xl (string_of_n xd)
     (match marker with 0 -> "none" | 1 -> "expired" | _ -> "live") recl
     (if probe then "ok" else "fail") est plain (List.length t.t_sess)
@@ -357,7 +357,9 @@ let spec_line f =
         let clean = mon_quiescent_clean (n_of_string (g "res")) (n_of_string (g "xl")) (n_of_string (g "xd"))
             (n_of_int marker) (n_of_int (Char.code rdv.[0] - 48)) (n_of_int (Char.code rdv.[1] - 48)) in
         let bad = ref [] in
-        if g "q" <> "1" || not clean then bad := "not-clean-after-quiescence" :: !bad;
+        let rxb = (try n_of_string (g "rx") with _ -> n_of_int 1) in
+        if not (mon_rx_free rxb) then bad := "rx-buffer-never-freed" :: !bad
+        else if g "q" <> "1" || not clean then bad := "not-clean-after-quiescence" :: !bad;
         (match int_of_n (mon_probe (n_of_string (g "recl")) (g "probe" = "ok")) with
          | 0 -> ()
          | 1 -> bad := "probe-failed-one-reclaimable-slot" :: !bad
